@@ -166,8 +166,8 @@ Qed.
    - otherwise e_ref < e_max and every image gets a constant in [min_k, max_k], non-decreasing in the
      image energy, STRICTLY increasing between images at or above e_ref (when min_k < max_k), equal to
      min_k below e_ref and equal to max_k for the highest image.
-   Not claimed: that the constants an image STARTS with (init_k) lie inside the bounds — Images.__init__
-   accepts init_k outside [min_k, max_k] (finding Images.__init__|init_k-outside-configured-bounds). *)
+   That the constants an image STARTS with lie inside the bounds is what Images.__init__ asserts
+   (min_k <= init_k <= max_k, /repo 77b67f4): see adaptive_k_stay_within_bounds. *)
 Theorem adaptive_k_bounds_monotone :
   forall nrm (min_k max_k : Qc) (es ks ks' : list Qc),
   (min_k <= max_k)%Qc ->
@@ -209,6 +209,30 @@ Qed.
 Theorem increment_not_adaptive_identity :
   forall (F : Type) (O : ops F) min_k max_k es ks, increment_ks F O false min_k max_k es ks = Some ks.
 Proof. reflexivity. Qed.
+
+(* "Adaptive spring constants stay within the configured bounds": a band whose images all start with
+   init_k in [min_k, max_k] (Images.__init__ asserts it, append_species hands init_k to every image) has
+   every constant in [min_k, max_k] after ANY sequence of increment() calls, adaptive or not, whatever
+   the energies of each step are. *)
+Theorem adaptive_k_stay_within_bounds :
+  forall nrm adaptive (min_k init_k max_k : Qc) (m : nat) (ess : list (list Qc)) (ks' : list Qc),
+  (min_k <= init_k)%Qc -> (init_k <= max_k)%Qc ->
+  increments Qc (Oq nrm) adaptive min_k max_k ess (repeat init_k m) = Some ks' ->
+  forall k, In k ks' -> (min_k <= k /\ k <= max_k)%Qc.
+Proof.
+  intros nrm adaptive min_k init_k max_k m ess ks' H1 H2.
+  assert (Hk : (min_k <= max_k)%Qc) by (eapply Qcle_trans; eassumption).
+  assert (Hinit : forall k, In k (repeat init_k m) -> (min_k <= k /\ k <= max_k)%Qc)
+    by (intros k Hin; apply repeat_spec in Hin; subst k; split; assumption).
+  revert Hinit. generalize (repeat init_k m) as ks. induction ess as [|es rest IH]; intros ks Hb H.
+  - cbn in H. injection H as <-. exact Hb.
+  - cbn [increments] in H. destruct (increment_ks Qc (Oq nrm) adaptive min_k max_k es ks) as [ks1|] eqn:E; [|discriminate].
+    apply (IH ks1); [|exact H]. destruct adaptive.
+    + destruct (adaptive_k_bounds_monotone nrm min_k max_k es ks ks1 Hk E) as [e0 [_ Hrest]].
+      cbv zeta in Hrest. destruct Hrest as [_ [_ [Hinv _]]]. exact (Hinv Hb).
+    + rewrite increment_not_adaptive_identity in E. injection E as <-. exact Hb.
+Qed.
+
 
 (* Interpolation keeps both end points, yields exactly n images, and fails exactly for n < 2. *)
 Theorem interp_endpoints_kept :
